@@ -145,3 +145,45 @@ Definition c01_replay_check (c : c01_replay_case) : issues :=
   ++ spec_if h "two executions of the same history differ in whether block processing failed".
 
 Definition c01_replay_classes (c : c01_replay_case) : list string := [].
+
+(* ---- restarted node ------------------------------------------------------------------------------------------
+   [run_node_restarting h l0 l s bs]: like [run_node], but every block comes with a flag; when it is set the node is
+   restarted before the block: whatever it held in memory is replaced by [l0], the memory of newly constructed keeper
+   objects.  The store is untouched by a restart. *)
+Section NodeRestart.
+  Context {L S B O : Type} (h : L -> S -> B -> L * S * O).
+  Fixpoint run_node_restarting (l0 l : L) (s : S) (bs : list (bool * B)) : S * list O :=
+    match bs with
+    | [] => (s, [])
+    | (restart, b) :: t =>
+        let '(l', s', o) := h (if restart then l0 else l) s b in
+        let '(sf, os) := run_node_restarting l0 l' s' t in (sf, o :: os)
+    end.
+End NodeRestart.
+
+(* one history executed straight through and once more with the Layer keepers rebuilt (new objects over the same
+   stores) before the blocks listed in [restarts]; per block: (digest of all module stores, digest of the block's
+   events, digest of the operations' results), as recorded in the node that kept running and in the restarted one *)
+Definition block_obs := (string * string * string)%type.
+Definition obs_stores (o : block_obs) : string := fst (fst o).
+Definition obs_events (o : block_obs) : string := snd (fst o).
+Definition obs_results (o : block_obs) : string := snd o.
+
+Inductive c01_restart_case :=
+| RestartCase (history_seed : Z) (restarts : list Z) (kept_running restarted : list block_obs)
+              (same_observations same_halt : bool) (store_entries events : Z).
+
+Definition c01_restart_check (c : c01_restart_case) : issues :=
+  let 'RestartCase _ _ k r obs h _ _ := c in
+  spec_if (list_eqb String.eqb (map obs_stores k) (map obs_stores r))
+    "a node restarted at a block boundary diverges from a node that kept running: the module stores differ after some block"
+  ++ spec_if (list_eqb String.eqb (map obs_events k) (map obs_events r))
+    "a node restarted at a block boundary diverges from a node that kept running: the events of some block differ"
+  ++ spec_if (list_eqb String.eqb (map obs_results k) (map obs_results r))
+    "a node restarted at a block boundary diverges from a node that kept running: the result of some operation differs"
+  ++ spec_if obs
+    "a node restarted at a block boundary diverges from a node that kept running: the projected state (balances, ledgers, pools) after some operation differs"
+  ++ spec_if h
+    "a node restarted at a block boundary diverges from a node that kept running: they differ in whether block processing failed".
+
+Definition c01_restart_classes (c : c01_restart_case) : list string := [].
